@@ -58,6 +58,19 @@ def _items_for_codemod(arg):
                 if label[0] != (pref if (pref, label[2]) in have else other): continue
             h = hashlib.sha1(data).hexdigest()[:12]
             seen.setdefault(h, (label, data))
+    # two different seeds of the codemod in one file, in both orders, with plain and from-imports (the kinds of site a codemod knows meet in one module)
+    for ri, r in enumerate(pick):
+        if len(pick) < 2: break
+        other = pick[(ri + 1) % len(pick)]
+        for a_, b_ in ((r, other), (other, r)) if tier != "quick" or ri % 2 == 0 else ((r, other),):
+            try: s_ = gen.pair(a_["input"], b_["input"])
+            except Exception: s_ = None
+            if s_ is None: continue
+            for imp, fn in (("plain", lambda x: x), ("from", gen.from_import)):
+                try: s2 = fn(s_)
+                except Exception: s2 = None
+                if s2 is None: continue
+                data = s2.encode("utf-8"); seen.setdefault(hashlib.sha1(data).hexdigest()[:12], (("pair", imp, "lf"), data))
     return sorted(seen.items())
 
 _PLANS = {}
@@ -73,9 +86,9 @@ def _plan(tier, seed):
     by = collections.defaultdict(list)
     for r in recs: by[r["codemod"]].append(r)
     if tier == "quick":
-        per, ctxs, imps, lays = 5, ("module", "def", "nested", "twice", "twice-defs", "closure"), ("plain", "alias", "from", "second-use", "mixed"), ("lf", "crlf", "bom", "exploded", "trailing-comma", "semicolon", "keywords-reversed", "cp1252", "dataflow", "shape-double-star", "formfeed")
+        per, ctxs, imps, lays = 5, ("module", "def", "nested", "twice", "twice-defs", "closure", "comprehension"), ("plain", "alias", "from", "second-use", "mixed"), ("lf", "crlf", "bom", "exploded", "trailing-comma", "semicolon", "keywords-reversed", "cp1252", "dataflow", "shape-double-star", "formfeed")
     else:
-        per, ctxs, imps, lays = 10**6, ("module", "def", "async", "method", "nested", "prelude", "twice", "twice-defs", "closure"), ("plain", "alias", "from", "second-use", "mixed"), ("lf", "crlf", "nonl", "bom", "tabs", "unicode", "exploded", "exploded-comments", "trailing-comma", "semicolon", "backslash", "formfeed", "keywords-reversed", "hanging", "cp1252", "latin-1", "shift_jis", "dataflow", "shape-double-star", "shape-star-args", "shape-extra-keyword", "shape-keyword-first")
+        per, ctxs, imps, lays = 10**6, ("module", "def", "async", "method", "nested", "prelude", "twice", "twice-defs", "closure", "comprehension"), ("plain", "alias", "from", "second-use", "mixed"), ("lf", "crlf", "nonl", "bom", "tabs", "unicode", "exploded", "exploded-comments", "trailing-comma", "semicolon", "backslash", "formfeed", "keywords-reversed", "hanging", "cp1252", "latin-1", "shift_jis", "dataflow", "shape-double-star", "shape-star-args", "shape-extra-keyword", "shape-keyword-first")
     jobs = []; args = []; cids = []
     for cid, rs in sorted(by.items()):
         rs = sorted(rs, key=lambda r: hashlib.sha1(r["input"].encode()).hexdigest())
